@@ -303,6 +303,11 @@ def run(repo, chk):
 
     # ---------------- F1 preemptive flag -------------------------------------------------------------
     _preemptive(repo, chk, gf)
+    # guard operands must still hold the values they were loaded with when the guard executes
+    if chk.__class__.__name__ == 'Check':
+        from . import c01
+        from ..report import Remap
+        c01.run(repo, Remap(chk, {'C01.R1': 'C05.G5'}))
     chk.not_decided = ['that the VM raises flags in program order (Sphinx semantics)']
 
 
@@ -383,6 +388,12 @@ def _preemptive(repo, chk, gf):
     Env_ = ns['Environment']
     cb = ns['CodeBlock']((T,), span, True)
     chk.expect(cb.evaluate(Env_.empty()).preemptive is True, 'C05.F1', 'CodeBlock.evaluate', 'evaluate must keep preemptive', BLOCKS)
+    # ... also when the preempt block is unreachable ("even if the preempt block is totally unreachable")
+    ret = ns['ReturnStatement'](span)
+    cb2 = ns['CodeBlock']((ret, T), span, True)
+    chk.expect(cb2.evaluate(Env_.empty().new_child(ns['DataType'].EMPTY)).preemptive is True, 'C05.F1',
+               'CodeBlock.evaluate with unreachable preempt', 'a preempt block after an unconditional exit still makes the function '
+               'preemptive (documented: conservative, even if totally unreachable)', BLOCKS)
     # implicit return keeps the flag
     FD = ns['FuncDeclaration']
     name = ns['Ident']('f', ns['Flavor'].DEFEAT)
